@@ -14,7 +14,8 @@
     the traversal). *)
 From PM Require Import Model.Prelude Model.Domain Model.Automaton Model.Traversal Model.DomString
   Spec.Occ Cert.LabCheck Cert.WfCheck Cert.WinCheck Cert.CharCert Cert.UnambCheck Cert.ExampleAut
-  Proofs.WfSound Proofs.LawfulDomains Proofs.StringUnique Proofs.StringExact.
+  Proofs.WfSound Proofs.LawfulDomains Proofs.StringUnique Proofs.StringExact
+  Model.DomMatrix Proofs.UnambSound Proofs.AbsEquiv.
 
 (** at most once: needs only well-formedness and the unambiguity certificates *)
 Theorem c07_string_at_most_once :
@@ -66,6 +67,32 @@ Example c07_example :
   /\ exists ms, run string_dom 100 ex_aut [98; 97; 97]%N = Ok ms /\ cnt 1 1 ms = 1%nat /\ cnt 1 0 ms = 0%nat.
 Proof. unfold s_unamb_certified. vm_compute. repeat split; eauto. Qed.
 
+(** Matrices, the half that the signed labelling decides (partial: the other half —
+    one state, two different views of the same anchor — is not proved for
+    matrices and is decided by the multiset comparison with the occurrence
+    oracle): on a matrix automaton that passes [slab_ok] and [cert_unamb], at
+    every anchor of every host a pattern is accepted by at most one of the states
+    that the abstract semantics reaches.  The two certificates are evaluated on
+    every dumped matrix automaton as information (they are not complete for
+    matrices: the labelling has no rule "a cell compared with another exists"). *)
+Theorem c07_matrix_accepting_states_exclusive_partial :
+  forall (A : automaton mkey cpredicate) (Ls : slabelling) (h : mhost) (a : mval)
+         (s1 s2 : N) (st1 st2 : astate mkey cpredicate) (p : N),
+    slab_ok (char_ceqb mkey_eqb) (char_refutes mkey_eqb) A Ls = true ->
+    cert_unamb (char_ceqb mkey_eqb) (char_refutes mkey_eqb) A Ls = true ->
+    areach (mval_of h a) A s1 -> areach (mval_of h a) A s2 ->
+    get_state A s1 = Ok st1 -> get_state A s2 = Ok st2 ->
+    In p (map fst (a_matches st1)) -> In p (map fst (a_matches st2)) -> s1 = s2.
+Proof.
+  intros A Ls h a s1 s2 st1 st2 p HL HU R1 R2 G1 G2 P1 P2.
+  assert (Hk : forall x y, mkey_eqb x y = true <-> x = y).
+  { intros [x1 x2] [y1 y2]. unfold mkey_eqb; cbn. rewrite andb_true_iff, !Z.eqb_eq.
+    split; [intros [-> ->]; reflexivity|intros X; inversion X; auto]. }
+  exact (cert_unamb_sound (char_ceqb mkey_eqb) (char_ceqb_spec mkey_eqb Hk) (char_refutes mkey_eqb) (mval_of h a)
+           (m_refutes_sound h a) A Ls HL s1 s2 st1 st2 p HU R1 R2 G1 G2 P1 P2).
+Qed.
+
 Print Assumptions c07_string_at_most_once.
 Print Assumptions c07_string_exactly_once.
 Print Assumptions c07_string_empty_pattern_once.
+Print Assumptions c07_matrix_accepting_states_exclusive_partial.
